@@ -496,14 +496,30 @@ def final_is_call(fn):
     return fn[4][0] in ("h", "ha")
 
 
+def yields_a_call(s):
+    if isinstance(s, str):
+        return False
+    if s[0] == "yield":
+        return s[1][0] in ("h", "ha")
+    if s[0] in ("seq", "if", "while"):
+        return any(yields_a_call(y) for y in s[1:])
+    return False
+
+
+def gen_tail_call_shape(fn):
+    """the checker marks the operand of every yield and the last expression as tail position unless the
+    method has a throw type"""
+    return (not can_throw(fn)) and (final_is_call(fn) or yields_a_call(fn[3]))
+
+
 def classify(fn, sec, exp, got, out_cls, out, prev_sec_had_error):
     """canonical class of the first disagreement of a program run"""
     name = SEC_NAME[sec]
     genlike = sec in ("F", "G")
     if got is None:
         if out_cls in ("go_panic", "go_fatal", "signal"):
-            if has_node(fn[3], ("yield",)) and final_is_call(fn):
-                return "generator:final-expression-tail-call:crash"
+            if gen_tail_call_shape(fn):
+                return "generator:yielded-method-call-compiled-as-tail-call:crash"
             return "crash:%s" % panic_class(out)
         if out_cls == "timeout":
             return "timeout"
@@ -512,8 +528,8 @@ def classify(fn, sec, exp, got, out_cls, out, prev_sec_had_error):
         return "output:section-missing:" + name
     if sec == "B" and exp[-1].startswith("E ") and got and got[-1] == exp[-1][2:]:
         return "await-on-pool-thread:caught-rejection-resolves-with-the-error-value"
-    if genlike and final_is_call(fn):
-        return "generator:final-expression-tail-call:wrong-output"
+    if genlike and gen_tail_call_shape(fn):
+        return "generator:yielded-method-call-compiled-as-tail-call:wrong-output"
     ey = [l for l in exp if l[0] in "YV"]
     gy = [l for l in got if l[0] in "YV"]
     if ey != gy:
@@ -722,7 +738,7 @@ def run(ctx):
     flags = probe(elk, ctx.workdir)
     rng = ctx.rng(STREAM)
     corpus = load_corpus(os.path.join(vlib.ROOT, "corpus", "C15.wrap.txt"))
-    nprog = ctx.n(40, 1500)
+    nprog = ctx.n(24, 1200)
     g = Gen(rng, flags["closure_then_return_ok"])
     cases = [("g%d" % i, g.func()) for i in range(nprog)]
     st_c = new_stats()
